@@ -14,12 +14,19 @@
 //	    published at ONE height of the node's DA double and read by the real processNextDAHeaderAndData ->
 //	    fetchBlobs -> types.RetrieveWithHelpers (GetIDs, Get in batches of 100 ids) -> handlePotentialHeader/Data.
 //
+//	(e) the tie of transaction data to the signed header (Model/AdmissionCommit.v): types.Validate and execValidate on a
+//	    genuine signed header with data whose transaction list is a near miss of the proposer's (item via=val); the real
+//	    DACommitment of pairs of byte-level transaction lists and the bytes it hashes (item via=cmt); and, end to end,
+//	    such near-miss data gossiped on the P2P data path (or posted on DA under the proposer's old signature) ahead of
+//	    the genuine data (adversarial data items with Resplit > 0).
+//
 // Writes cases_C03.v (for Model/Admission.v) and result.json (oracle).
 package c03
 
 import (
 	"bytes"
 	"context"
+	"crypto/sha256"
 	"errors"
 	"fmt"
 	"math/rand"
@@ -196,6 +203,8 @@ type runResult struct {
 	fetch           [][][2]int // per DA-height item read by the node: the da.Get calls (first id, count)
 	skipped         []skip     // proposer's blobs present at a scanned DA height that got no DA-included mark
 	scanErr         string     // processNextDAHeaderAndData returned an error on a DA height the double serves
+	foreignData     []uint64   // stored blocks whose transaction list is not, byte for byte, the proposer's list of that height
+	foreignExec     []string   // transaction lists handed to the executor that are no list of the proposer's chain
 }
 
 // skip: a blob signed by the proposer sat at position pos of a DA height of n blobs and was passed over
@@ -221,6 +230,14 @@ const (
 	sigSkipped      = "proposer-blob-skipped-at-da-height"
 	sigSkippedCrowd = "proposer-blob-skipped-at-da-height-over-100-blobs"
 	sigScanErr      = "da-height-scan-error"
+	// transaction data: the node applied / stored / executed a transaction list that is not the proposer's list for
+	// that block (the header may well be genuine: the data is what was not signed)
+	sigForeignApplied = "applied-transactions-not-the-proposers"
+	// types.Validate / execValidate accepted, under a proposer-signed header, a transaction list other than the proposer's
+	sigForeignValid = "header-accepts-foreign-transactions"
+	// two different transaction lists with the same DACommitment
+	sigCollision = "commitment-collision"
+	sigNotAFunc  = "commitment-differs-for-equal-lists"
 )
 
 // class of an adversarial item the node admitted: a decidable predicate of the item itself
@@ -405,6 +422,19 @@ func (w *world) run(items []Item) *runResult {
 		if !w.headerSignedByProposer(sh) {
 			res.unsignedApplied = append(res.unsignedApplied, h)
 		}
+		_, sd, _ := n.st.GetBlockData(ctx, h)
+		if h <= uint64(len(w.chain)) && sd != nil && !sameTxs(sd.Txs, w.chain[h-1].data.Txs) {
+			res.foreignData = append(res.foreignData, h)
+		}
+	}
+	for _, c := range n.exec.calls {
+		ok := false
+		for _, g := range w.chain {
+			ok = ok || sameTxs(c.txs, g.data.Txs)
+		}
+		if !ok {
+			res.foreignExec = append(res.foreignExec, hexTxs(c.txs))
+		}
 	}
 	res.hstoreH, res.dstoreH = n.hstore.Height(), n.dstore.Height()
 	for h := uint64(1); h <= res.hstoreH; h++ {
@@ -580,6 +610,9 @@ func (w *world) oracle(ref, got *runResult) (sigs []string, what map[string]stri
 	if got.crashed && !known[sigPanic] {
 		add("unexplained-crash", "a goroutine of the node panicked")
 	}
+	if len(got.foreignData) > 0 || (len(got.foreignExec) > 0 && len(got.unsignedApplied) == 0) {
+		add(sigForeignApplied, fmt.Sprintf("the node applied transactions the proposer never signed: stored block(s) %v hold a transaction list that is not the proposer's list of that height; lists handed to the executor that are no list of the proposer's chain: %v", got.foreignData, got.foreignExec))
+	}
 	if len(got.unsignedApplied) > 0 {
 		add(sigApplied, fmt.Sprintf("the node applied and stored block(s) %v whose header is not signed by the genesis proposer's key", got.unsignedApplied))
 	}
@@ -633,6 +666,150 @@ func trimErr(s string) string {
 		return s[:80]
 	}
 	return s
+}
+
+// ---- (e) helpers: byte-level terms, the state ahead of a block, bases of the commitment pairs ---------------
+
+func concatTxs(txs types.Txs) []byte {
+	var out []byte
+	for _, t := range txs {
+		out = append(out, t...)
+	}
+	return out
+}
+
+func hexTxs(txs types.Txs) string {
+	var p []string
+	for _, t := range txs {
+		if len(t) == 0 {
+			p = append(p, "<empty tx>")
+		} else {
+			p = append(p, fmt.Sprintf("%x", []byte(t)))
+		}
+	}
+	return fmt.Sprintf("%d tx [%s]", len(txs), strings.Join(p, " "))
+}
+
+func bytesTerm(b []byte) string {
+	var sb strings.Builder
+	sb.WriteByte('[')
+	for i, x := range b {
+		if i > 0 {
+			sb.WriteByte(';')
+		}
+		fmt.Fprintf(&sb, "%d", x)
+	}
+	sb.WriteByte(']')
+	return sb.String()
+}
+
+func btxsTerm(txs types.Txs) string {
+	var p []string
+	for _, t := range txs {
+		p = append(p, bytesTerm(t))
+	}
+	return "[" + strings.Join(p, ";") + "]"
+}
+
+// stateBefore: the state of a node that has applied the proposer's blocks below h (what execValidate is given for block h)
+func (w *world) stateBefore(h uint64) (types.State, string) {
+	st := types.State{Version: types.InitStateVersion, ChainID: w.gen.ChainID, InitialHeight: w.gen.InitialHeight,
+		LastBlockHeight: h - 1, LastBlockTime: w.gen.GenesisDAStartTime, AppHash: w.chain[h-1].hdr.AppHash}
+	if h > 1 {
+		st.LastBlockTime = w.chain[h-2].hdr.Time()
+	}
+	return st, fmt.Sprintf("{| s_chain := %d; s_initial := %d; s_height := %d; s_time := %d; s_app := %d; s_da := 0 |}",
+		chainN(st.ChainID), st.InitialHeight, h-1, st.LastBlockTime.UnixNano(), w.root(st.AppHash))
+}
+
+// cmtBase: the list the two lists of a commitment pair are derived from: the proposer's transactions of block h, or 1-4
+// short invented transactions over an alphabet of bytes that look like framing (tags, small lengths, 0x80, 0xff);
+// now and then one of 128+ bytes (its length takes two varint groups)
+func (w *world) cmtBase(h uint64, salt int64) types.Txs {
+	if salt%2 == 0 && h >= 1 && h <= uint64(len(w.chain)) && len(w.chain[h-1].data.Txs) > 0 {
+		return cloneTxs(w.chain[h-1].data.Txs)
+	}
+	r := rand.New(rand.NewSource(salt*15485863 + int64(h)))
+	alphabet := []byte{0x00, 0x01, 0x02, 0x12, 0x0a, 0x80, 0xff}
+	n := 1 + r.Intn(4)
+	var out types.Txs
+	for i := 0; i < n; i++ {
+		tx := make(types.Tx, r.Intn(7))
+		for j := range tx {
+			if r.Intn(2) == 0 {
+				tx[j] = alphabet[r.Intn(len(alphabet))]
+			} else {
+				tx[j] = byte(r.Intn(256))
+			}
+		}
+		out = append(out, tx)
+	}
+	if r.Intn(16) == 0 {
+		out[r.Intn(len(out))] = bytes.Repeat([]byte{byte(r.Intn(256))}, 128+r.Intn(80))
+	}
+	return out
+}
+
+// genTxDataItems: the items of stream (e).  Drawn from a PRNG of their own: the rest of the case is what it was.
+func genTxDataItems(rs *rand.Rand, rp *Replay, L uint64) {
+	kind := func() int {
+		if rs.Intn(100) < 60 { // mostly the lists with the proposer's concatenation
+			return []int{kindRecut, kindShift, kindEmpty, kindMerge}[rs.Intn(4)]
+		}
+		return 1 + rs.Intn(nVariantKind)
+	}
+	if rp.Kind == "adm" {
+		for h := uint64(1); h <= L; h++ {
+			for k := 0; k < 2; k++ {
+				it := Item{Adv: true, Via: "val", Kind: "data", H: h, Resplit: kind(), Salt: int64(1 + rs.Intn(1000)), SignerKey: -1, SignerAddr: -1, PropAddr: -1}
+				it.NoMeta = rs.Intn(100) < 10
+				if rs.Intn(100) < 10 {
+					it.Mut = []string{"chain", "height+", "oldstate"}[rs.Intn(3)]
+				}
+				rp.Items = append(rp.Items, it)
+			}
+		}
+		rp.Items = append(rp.Items, Item{Adv: true, Via: "val", Kind: "data", H: 1 + uint64(rs.Intn(int(L))), Resplit: kindCopy, Salt: 1, SignerKey: -1, SignerAddr: -1, PropAddr: -1, NoMeta: rs.Intn(100) < 30})
+		for k := 0; k < 6; k++ {
+			it := Item{Adv: true, Via: "cmt", Kind: "pair", H: 1 + uint64(rs.Intn(int(L))), Resplit2: kind(), Salt: int64(1 + rs.Intn(1000)), SignerKey: -1, SignerAddr: -1, PropAddr: -1}
+			switch p := rs.Intn(100); {
+			case p < 40: // the base against a near miss of it
+			case p < 50: // a list against itself
+				it.Resplit = it.Resplit2
+			default: // two near misses of one base
+				it.Resplit = kind()
+			}
+			rp.Items = append(rp.Items, it)
+		}
+		return
+	}
+	// end to end: near-miss data for a block, gossiped on the P2P data path right where the data store takes it (just
+	// ahead of the proposer's data of that height), or posted on DA under the proposer's signature of the genuine data
+	if rs.Intn(100) >= 50 {
+		return
+	}
+	start := 0
+	for start < len(rp.Items) && rp.Items[start].Via == "init" {
+		start++
+	}
+	var at []int
+	for i, it := range rp.Items {
+		if !it.Adv && it.Via == "p2p" && it.Kind == "data" {
+			at = append(at, i)
+		}
+	}
+	var it Item
+	pos := start + rs.Intn(len(rp.Items)-start+1)
+	if len(at) > 0 {
+		i := at[rs.Intn(len(at))]
+		it = Item{Adv: true, Via: "p2p", Kind: "data", H: rp.Items[i].H, Linked: true, Resplit: kind(), Salt: int64(1 + rs.Intn(1000)), SignerKey: -1, SignerAddr: -1, PropAddr: -1}
+		if rs.Intn(100) < 80 {
+			pos = i
+		}
+	} else {
+		it = Item{Adv: true, Via: "da", Kind: "data", H: 1 + uint64(rs.Intn(int(L))), Resplit: kind(), Salt: int64(1 + rs.Intn(1000)), Sign: 0, SignerKey: -1, SignerAddr: -1, PropAddr: -1}
+	}
+	rp.Items = append(rp.Items[:pos], append([]Item{it}, rp.Items[pos:]...)...)
 }
 
 // ---- generators -----------------------------------------------------------------------------------
@@ -1003,6 +1180,11 @@ func runE2E(t *testing.T, rp Replay, tier string, doShrink map[string]bool) *cas
 				co.dist = append(co.dist, "dah:admitted-some")
 			}
 		}
+		for i, it := range rp.Items {
+			if it.Resplit > 0 && it.Kind == "data" {
+				co.dist = append(co.dist, fmt.Sprintf("e2e:near-miss-data:%s:%s:outcome=%d", it.Via, variantName(it.Resplit), got.outs[i]))
+			}
+		}
 		if got.halted {
 			co.dist = append(co.dist, "e2e:halted:"+trimErr(got.haltErr))
 		}
@@ -1077,8 +1259,109 @@ func runAdm(t *testing.T, rp Replay) *caseOut {
 		defer cancel()
 		r := caseRng(rp.Seed, rp.Case)
 		w := newWorld(t, ctx, r, rp.TxCount)
-		var blobs, pairs []string
+		var blobs, pairs, cmts, vals, vdefs []string
+		var vn *nodeParts // one real Manager for the execValidate calls of the case
+		vnamed := map[string]bool{}
+		flag := func(sig, what string) {
+			if co.what == nil {
+				co.what = map[string]string{}
+			}
+			if _, dup := co.what[sig]; !dup {
+				co.sigs = append(co.sigs, sig)
+				co.what[sig] = what
+			}
+		}
 		for i, it := range rp.Items {
+			if it.Via == "val" {
+				// (e) a genuine signed header of the chain + near-miss data, as the node gets them (wire round trip),
+				// through the real types.Validate and the real execValidate
+				L := uint64(len(w.chain))
+				h := (it.H-1)%L + 1
+				g := w.chain[h-1]
+				hb, _ := g.hdr.MarshalBinary()
+				hd := new(types.SignedHeader)
+				if err := hd.UnmarshalBinary(hb); err != nil {
+					t.Fatal(err)
+				}
+				sub := it
+				sub.Via, sub.Kind, sub.Adv, sub.H = "p2p", "data", true, h
+				b := w.build(sub, nil)
+				sth := h
+				if it.Mut == "oldstate" && h > 1 {
+					sth = h - 1
+				}
+				st, stTerm := w.stateBefore(sth)
+				if vn == nil {
+					vn = newNode(t, ctx, nil, w.gen, t.TempDir())
+				}
+				okV := types.Validate(hd, b.d) == nil
+				okE := vn.m.VerifC01ExecValidate(st, hd, b.d) == nil
+				shName, stName := fmt.Sprintf("VSh%d", h), fmt.Sprintf("VSt%d", sth)
+				if !vnamed[shName] {
+					vnamed[shName] = true
+					vdefs = append(vdefs, fmt.Sprintf("Definition %s : sheader := %s.", shName, w.sheaderTerm(hd)))
+				}
+				if !vnamed[stName] {
+					vnamed[stName] = true
+					vdefs = append(vdefs, fmt.Sprintf("Definition %s : cstate := %s.", stName, stTerm))
+				}
+				vals = append(vals, fmt.Sprintf("{| vo_state := %s; vo_hdr := %s; vo_data := %s; vo_validate := %v; vo_exec := %v |}",
+					stName, shName, w.dataTerm(b.d), okV, okE))
+				co.outcomes = append(co.outcomes, map[bool]uint64{true: 1, false: 0}[okV])
+				co.dist = append(co.dist, fmt.Sprintf("val:%s:accepted=%v", variantName(it.Resplit), okV))
+				if (okV || okE) && !sameTxs(b.d.Txs, g.data.Txs) {
+					co.dist = append(co.dist, "admitted:"+sigForeignValid)
+					flag(sigForeignValid, fmt.Sprintf("item %d (%s): under the proposer-signed header of block %d, types.Validate accepted=%v / execValidate accepted=%v data with the transactions %s, which are not the proposer's %s (near miss: %s)",
+						i, it, h, okV, okE, hexTxs(b.d.Txs), hexTxs(g.data.Txs), variantName(it.Resplit)))
+				}
+				continue
+			}
+			if it.Via == "cmt" {
+				// (e) the real DACommitment of two byte-level transaction lists, and the bytes it hashes
+				base := w.cmtBase(it.H, it.Salt)
+				A, B := cloneTxs(base), cloneTxs(base)
+				if it.Resplit > 0 {
+					A = variantTxs(base, it.Resplit, it.Salt)
+				}
+				if it.Resplit2 > 0 {
+					B = variantTxs(base, it.Resplit2, it.Salt)
+				}
+				da, db := &types.Data{Txs: A}, &types.Data{Txs: B}
+				if it.Salt%2 == 1 { // DACommitment leaves the Metadata out
+					da.Metadata = &types.Metadata{ChainID: chainID, Height: it.H, Time: uint64(it.Salt), LastDataHash: bytes.Repeat([]byte{7}, 32)}
+				}
+				ca, cb := da.DACommitment(), db.DACommitment()
+				eq := bytes.Equal(ca, cb)
+				enc, err := (&types.Data{Txs: A}).MarshalBinary()
+				if err != nil {
+					t.Fatal(err)
+				}
+				pre := append([]byte{0}, enc...)
+				sum := sha256.Sum256(pre)
+				preOK := bytes.Equal(sum[:], ca)
+				cmts = append(cmts, fmt.Sprintf("{| co_a := %s; co_b := %s; co_eq := %v; co_pre := %s; co_pre_ok := %v |}",
+					btxsTerm(A), btxsTerm(B), eq, bytesTerm(pre), preOK))
+				co.outcomes = append(co.outcomes, map[bool]uint64{true: 1, false: 0}[eq])
+				same := sameTxs(A, B)
+				switch {
+				case same:
+					co.dist = append(co.dist, "cmt:one-list-twice")
+				case bytes.Equal(concatTxs(A), concatTxs(B)):
+					co.dist = append(co.dist, "cmt:different-lists-same-concatenation")
+				default:
+					co.dist = append(co.dist, "cmt:different-lists-different-bytes")
+				}
+				if len(pre) > 130 {
+					co.dist = append(co.dist, "cmt:transaction-of-128+-bytes")
+				}
+				switch {
+				case eq && !same:
+					flag(sigCollision, fmt.Sprintf("item %d (%s): the transaction lists %s and %s are different and have the same DACommitment %x", i, it, hexTxs(A), hexTxs(B), []byte(ca)))
+				case !eq && same:
+					flag(sigNotAFunc, fmt.Sprintf("item %d (%s): the transaction list %s has the DACommitments %x and %x", i, it, hexTxs(A), []byte(ca), []byte(cb)))
+				}
+				continue
+			}
 			if it.Via == "da" {
 				b := w.build(it, nil)
 				nctx, ncancel := context.WithCancel(ctx)
@@ -1163,9 +1446,14 @@ func runAdm(t *testing.T, rp Replay) *caseOut {
 			}
 		}
 		co.items = rp.Items
-		co.coqCase = fmt.Sprintf("CAdm {| ac_gen := %s; ac_now := %d;\n ac_blobs := [%s];\n ac_p2p := [%s] |}",
-			w.genesisTerm(), w.now.UnixNano(), strings.Join(blobs, ";\n   "), strings.Join(pairs, ";\n   "))
-		co.coqDefs = strings.Join(w.defs, "\n")
+		if vn != nil {
+			stopNode(vn)
+			synctest.Wait()
+		}
+		co.coqCase = fmt.Sprintf("CAdm {| ac_gen := %s; ac_now := %d;\n ac_blobs := [%s];\n ac_p2p := [%s];\n ac_cmt := [%s];\n ac_val := [%s] |}",
+			w.genesisTerm(), w.now.UnixNano(), strings.Join(blobs, ";\n   "), strings.Join(pairs, ";\n   "),
+			strings.Join(cmts, ";\n   "), strings.Join(vals, ";\n   "))
+		co.coqDefs = strings.Join(append(append([]string{}, w.defs...), vdefs...), "\n")
 		co.summary = map[string]interface{}{"items": fmt.Sprint(rp.Items), "oracle": co.sigs}
 	})
 	return co
@@ -1207,6 +1495,7 @@ func genCase(seed int64, c int, tier string) Replay {
 		for h := uint64(2); h <= L; h++ {
 			rp.Items = append(rp.Items, Item{Via: "p2p", Kind: "hdr", H: h})
 		}
+		genTxDataItems(rand.New(rand.NewSource(seed*7368787+int64(c)*31+1301)), &rp, L)
 		return rp
 	}
 	rp.Kind = "e2e"
@@ -1238,6 +1527,7 @@ func genCase(seed int64, c int, tier string) Replay {
 		}
 	}
 	rp.Items = interleave(r, g, adv)
+	genTxDataItems(rand.New(rand.NewSource(seed*7368787+int64(c)*31+1301)), &rp, L)
 	return rp
 }
 
@@ -1331,7 +1621,7 @@ func TestVerif(t *testing.T) {
 		}
 	}
 	res.Distinct = len(distinct)
-	res.Rule = "per case a fresh world: 3 real Ed25519 keys, a real aggregator Manager producing 3-5 blocks (thorough: 3-8; 60% non-empty); every third case = admission case (10 adversarial + all genuine DA blobs each on a fresh non-aggregator Manager; 8 adversarial + genuine gossip headers through go-header's Validate/Verify/append on a real store); other cases = end-to-end: genuine traffic (P2P init 60%, each block over DA/P2P/both, 15% neighbour swaps) interleaved at random positions with 0-4 adversarial items (45% over P2P, of which 45% data; F3 shape 38% of headers, honest third party, stolen signature, unsigned hash-linked, junk signature, wrong chain id, past/future height, future time, truncated/junk/undecodable/empty blobs, forged data with and without Metadata, linked/unlinked P2P data) on a real syncing Manager under synctest, plus the genuine-only reference run; 40% of the end-to-end cases are crowded: for 1-2 blocks delivered over DA the proposer's header and/or data blob sit in ONE DA height together with 0-350 (thorough: up to 1050) third-party blobs (sizes on the boundaries of RetrieveWithHelpers' batches of 100 ids: 99,100,101,130,...,299,300,301,350, or uniform) of the adversarial DA kinds, ahead of / between / behind the proposer's blobs (45%: the proposer's blobs last or within the trailing partial batch), 30% of them also get a DA height of third-party blobs only; such a height is published on the node's DA double and read by the real processNextDAHeaderAndData -> fetchBlobs -> types.RetrieveWithHelpers (GetIDs + batched Get) -> handlePotentialHeader/Data; non-trivial = at least one adversarial item and 4 items; distinct = distinct (tx counts, item list)"
+	res.Rule = "per case a fresh world: 3 real Ed25519 keys, a real aggregator Manager producing 3-5 blocks (thorough: 3-8; 60% non-empty); every third case = admission case (10 adversarial + all genuine DA blobs each on a fresh non-aggregator Manager; 8 adversarial + genuine gossip headers through go-header's Validate/Verify/append on a real store); other cases = end-to-end: genuine traffic (P2P init 60%, each block over DA/P2P/both, 15% neighbour swaps) interleaved at random positions with 0-4 adversarial items (45% over P2P, of which 45% data; F3 shape 38% of headers, honest third party, stolen signature, unsigned hash-linked, junk signature, wrong chain id, past/future height, future time, truncated/junk/undecodable/empty blobs, forged data with and without Metadata, linked/unlinked P2P data) on a real syncing Manager under synctest, plus the genuine-only reference run; 40% of the end-to-end cases are crowded: for 1-2 blocks delivered over DA the proposer's header and/or data blob sit in ONE DA height together with 0-350 (thorough: up to 1050) third-party blobs (sizes on the boundaries of RetrieveWithHelpers' batches of 100 ids: 99,100,101,130,...,299,300,301,350, or uniform) of the adversarial DA kinds, ahead of / between / behind the proposer's blobs (45%: the proposer's blobs last or within the trailing partial batch), 30% of them also get a DA height of third-party blobs only; such a height is published on the node's DA double and read by the real processNextDAHeaderAndData -> fetchBlobs -> types.RetrieveWithHelpers (GetIDs + batched Get) -> handlePotentialHeader/Data; transaction data (own PRNG per case): every admission case adds, per block of the chain, 2 pairs (genuine signed header, data whose transaction list is a near miss of the proposer's: 60% same concatenation = re-cut at random boundaries / one boundary moved by one byte / an empty transaction added / all merged, else any of those or swapped, rotated, truncated, duplicated, one bit flipped, protobuf tag+length inside one transaction, exact copy; 10% without Metadata, 10% wrong chain id / height / older state; for an empty block: lists of empty transactions) + 1 exact copy, handed after a wire round trip to the real types.Validate and execValidate, and 6 pairs of byte-level lists (the proposer's transactions or 1-4 invented ones of 0-6 bytes over an alphabet of framing-like bytes, 1/16 with a transaction of 128-207 bytes; base vs near miss 40%, a list against itself 10%, two near misses 50%) whose real DACommitments are compared, together with sha256(leafPrefix ++ real Data{Txs} encoding) == DACommitment; half of the end-to-end cases add one near-miss data item: gossiped on the P2P data path, hash-linked, 80% right ahead of the proposer's data of that height (where the data store takes it), or - node without P2P - posted on DA under the proposer's signature of the genuine data; non-trivial = at least one adversarial item and 4 items; distinct = distinct (tx counts, item list)"
 	res.Cases = len(cases)
 	header := "From Coq Require Import String NArith ZArith List Bool.\nFrom Verif Require Import Model.Types Model.Admission Check.AdmissionCheck.\nLocal Open Scope N_scope."
 	path := filepath.Join(e.Out, "cases_C03.v")
